@@ -249,6 +249,46 @@ pub fn exec_agree(c: &AgreeCase, st: &mut Stats) -> Vec<Viol> {
             }
         }
     };
+    // documents with anchors, aliases or merge keys under tight limits on exactly those counters: what is
+    // charged (alias events, replayed nodes, merge keys) must not depend on the entry point
+    if let Some(text) = c.doc.as_str()
+        && c.opts.is_default()
+        && (text.contains('*') || text.contains("<<"))
+        && text.len() < 400
+    {
+        st.bump("tight_budget_peers");
+        for (field, limit) in [(0u8, 0usize), (0, 1), (0, 2), (1, 0), (1, 1), (1, 2), (1, 3), (2, 0), (2, 1), (2, 2)] {
+            let mut o = OptVec::default();
+            let mut b = serde_saphyr::Budget::default();
+            match field {
+                0 => b.max_merge_keys = limit,
+                1 => b.max_aliases = limit,
+                _ => b.max_anchors = limit,
+            }
+            o.budget = Some(b);
+            let a = crate::with_target!(c.target, run(Entry::FromStr, bytes, &o, &whole));
+            if matches!(a.outcome, Outcome::Panic(_) | Outcome::Liveness(_)) {
+                continue;
+            }
+            for e in [Entry::FromReader, Entry::WdReader, Entry::WdStr] {
+                let r = crate::with_target!(c.target, run(e, bytes, &o, &whole));
+                st.evals += 1;
+                if r.outcome.agree_key() != a.outcome.agree_key() {
+                    out.push(mk(
+                        "tight-budget-disagrees",
+                        format!(
+                            "{} = {limit}: {e:?} gives {} but from_str gives {}",
+                            ["max_merge_keys", "max_aliases", "max_anchors"][field as usize],
+                            r.outcome.short(),
+                            a.outcome.short()
+                        ),
+                        Some(Chunking::Whole),
+                    ));
+                    break;
+                }
+            }
+        }
+    }
     // the character span carried by an error's location (untyped target; string, slice, reader)
     if let Some(text) = c.doc.as_str() {
         let key = |e: &serde_saphyr::Error| -> String {
@@ -398,6 +438,13 @@ struct BDoc<'a> {
     b: Vec<&'a str>,
 }
 
+/// Mapping keys lent as `&str` (keys travel through the same look-ahead buffer as values).
+#[derive(Debug, Deserialize)]
+struct KDoc<'a> {
+    #[serde(borrow)]
+    m: std::collections::BTreeMap<&'a str, &'a str>,
+}
+
 /// `Cow` may own, so it must succeed exactly when the owned target does, with the same text.
 #[derive(Debug, Deserialize)]
 struct CDoc<'a> {
@@ -439,6 +486,27 @@ pub fn exec_borrow(c: &BorrowCase, st: &mut Stats) -> Vec<Viol> {
         }
     };
     st.note(&format!("{:?}|{:?}", owned.as_ref().map_err(|e| lab::err_info(e)), borrowed.as_ref().map_err(|e| lab::err_info(e))));
+    // borrowed mapping keys and values over verbatim plain scalars
+    {
+        // (one buffer with one address: a `const` may be instantiated more than once)
+        let ktext_owned = String::from("m:\n  alpha: one\n  béta: 'two words'\n  \"third\": 3rd\n");
+        #[allow(non_snake_case)]
+        let KTEXT: &str = &ktext_owned;
+        if let Ok(r) = guard(|| serde_saphyr::from_str::<KDoc>(KTEXT)) {
+            st.evals += 1;
+            match r {
+                Ok(k) => {
+                    if k.m.len() != 3 || !k.m.iter().all(|(a, b)| within(KTEXT, a) && within(KTEXT, b)) {
+                        out.push(mk("borrowed-not-from-input", format!("borrowed map {:?} does not point into the input", k.m)));
+                    }
+                }
+                Err(e) => out.push(mk(
+                    "borrow-refused-verbatim",
+                    format!("a map of verbatim &str keys and values fails with {}", lab::err_info(&e).kind),
+                )),
+            }
+        }
+    }
     // Cow<str>: the same answer as String, whichever way the library chooses to hand the text over
     if let Ok(cow) = guard(|| serde_saphyr::from_str::<CDoc>(text)) {
         st.evals += 1;
